@@ -9,8 +9,15 @@ package keeper
 // ---- C20: execution-layer parameter requests keep the bounds -----------------
 
 //@ func (Keeper).ProcessBridgeRequest
-//@ property C20 C05
+//@ property C20 C05 C18
 //@ let W = st.bitcoin.Withdrawals
+// C18 (import acceptance): genesis import panics unless Params.Validate accepts the exported parameters; besides the C20 bounds
+// that is the tax pair rule of Params.Validate (a positive rate needs a cap in (0, 1e8], a zero rate needs a zero cap). Every value
+// this handler stores must satisfy it whenever the stored value did before.
+//@ requires [C18] importable: (st.bitcoin.Params.DepositTaxRate > 0 ==> st.bitcoin.Params.MaxDepositTax > 0 && st.bitcoin.Params.MaxDepositTax <= 100000000) && (st.bitcoin.Params.DepositTaxRate == 0 ==> st.bitcoin.Params.MaxDepositTax == 0)
+//@ writesite bitcoin.Params [C18] importable_cap_present: val.DepositTaxRate > 0 ==> val.MaxDepositTax > 0
+//@ writesite bitcoin.Params [C18] importable_cap_range: val.DepositTaxRate > 0 ==> val.MaxDepositTax <= 100000000
+//@ writesite bitcoin.Params [C18] importable_zero_rate: val.DepositTaxRate == 0 ==> val.MaxDepositTax == 0
 //@ requires inv20: st.bitcoin.Params.DepositTaxRate < 10000 && st.bitcoin.Params.MinDepositAmount >= 1000 && st.bitcoin.Params.ConfirmationNumber >= 1
 // C05, ASSUMPTION about the execution layer (the bridge contract numbers withdrawals consecutively and reports every id once):
 // the ids of the new withdrawal requests of a block are not yet known to the module and pairwise different.
